@@ -392,9 +392,20 @@ impl SubCheck for TsSeqSub {
     fn eval(&self, c: &TsSeqCase) -> Verdict {
         super::note_case("C14", self.name(), c);
         let r = std::panic::catch_unwind(std::panic::AssertUnwindSafe(|| {
-            let sink = WakeSink::new();
+            let mut sink = WakeSink::new();
             let mut set = TaskSet::with_len(sink.source(), c.initial as usize);
             let mut count = c.initial as usize;
+            // the parent's waker: counts the notifications of the set
+            struct Counting(std::sync::atomic::AtomicUsize);
+            impl std::task::Wake for Counting {
+                fn wake(self: std::sync::Arc<Self>) {
+                    self.0.fetch_add(1, std::sync::atomic::Ordering::SeqCst);
+                }
+            }
+            let counting = std::sync::Arc::new(Counting(std::sync::atomic::AtomicUsize::new(0)));
+            let parent: std::task::Waker = counting.clone().into();
+            // model: a notification was requested by a take that found nothing (and not cancelled since)
+            let mut armed = false;
             let mut scheduled: Vec<usize> = Vec::new(); // model: distinct active indices woken since the last take/discard
             let (mut shrink_then_grow, mut max_seen, mut shrunk) = (false, count, false);
             for (k, op) in c.ops.iter().enumerate() {
@@ -402,6 +413,7 @@ impl SubCheck for TsSeqSub {
                     TsOp::Resize(n) => {
                         set.discard_scheduled();
                         scheduled.clear();
+                        armed = false;
                         let n = *n as usize;
                         if n < count {
                             shrunk = true;
@@ -416,13 +428,28 @@ impl SubCheck for TsSeqSub {
                     TsOp::Wake(i) => {
                         if count > 0 {
                             let i = *i as usize % count;
+                            let before = counting.0.load(std::sync::atomic::Ordering::SeqCst);
+                            let newly = !scheduled.contains(&i);
                             set.waker_of(i).wake_by_ref();
-                            if !scheduled.contains(&i) {
+                            if newly {
                                 scheduled.push(i);
+                            }
+                            if armed && newly {
+                                // "the notification is guaranteed to be triggered no later than after
+                                // notify_count (= 1) tasks have been scheduled"
+                                if counting.0.load(std::sync::atomic::Ordering::SeqCst) == before {
+                                    panic!("ORACLE lost-notification|op#{}: a take found nothing and requested a notification after 1 scheduled task; task {} was then scheduled and the parent was not notified", k, i);
+                                }
+                                armed = false;
                             }
                         }
                     }
                     TsOp::Take => {
+                        // as the broadcast future does: the parent's waker is registered before looking
+                        sink.register(&parent);
+                        if scheduled.is_empty() {
+                            armed = true;
+                        }
                         let mut got: Vec<usize> = match set.take_scheduled(1) {
                             Some(it) => it.collect(),
                             None => Vec::new(),
